@@ -704,7 +704,7 @@ func main() {
 		c.Finish("replay of one recorded fork experiment")
 	}
 
-	ncases := 1500
+	ncases := 1000
 	if c.Thorough() {
 		ncases *= 20
 	}
